@@ -947,7 +947,9 @@ class SVG:
             updates.append((idx, el, shape))
 
         for idx, el, shape in updates:
-            self._set_element(idx, el, (shape,))
+            # the bounding box can reach into the view box when the shape itself
+            # does not: nothing is left of it, so the element goes
+            self._set_element(idx, el, (shape,) if shape.d else ())
 
         # Update the etree
         self._update_etree()
